@@ -313,6 +313,15 @@ def schema_strategy(max_types=5, rich=True):
                     elif kind == 'policy' and rich:
                         members.append(dict(kind='policy', name='ap',
                                             text=f'allow all using (exists .{pn})'))
+            # object-level exclusive constraint on an own single str property
+            own_str = [mm['name'] for mm in members if mm['kind'] == 'property'
+                       and mm.get('target') == 'str' and mm.get('card') == 'single'
+                       and mm.get('expr') is None]
+            if own_str and draw(st.integers(0, 2)) == 0:
+                pn = draw(st.sampled_from(own_str))
+                if not any(mm['kind'] == 'constraint' and mm['text'] == f'exclusive on (.{pn})'
+                           for mm in members):
+                    members.append(dict(kind='constraint', text=f'exclusive on (.{pn})'))
             # overloaded pointer
             if inherited_props and rich and draw(st.integers(0, 3)) == 0:
                 pn = draw(st.sampled_from(sorted(inherited_props)))
@@ -332,6 +341,51 @@ def schema_strategy(max_types=5, rich=True):
             props_of[q] = {k: v for k, v in myprops.items()}
             multi_of[q] = set(multi_props)
             links_of[q] = dict(mylinks)
+        # computeds that depend on name resolution / constraint-based inference
+        if rich:
+            decl_of0 = {qname(m, d['name']): (m, d) for m, ds in mods.items() for d in ds
+                        if d['kind'] == 'type'}
+            # (a) cast to a collection of a user scalar written by its *short* name
+            for q0, (m0, d0) in sorted(decl_of0.items()):
+                local_scalars = [dd for dd in mods[m0] if dd['kind'] == 'scalar']
+                if local_scalars and draw(st.integers(0, 2)) == 0:
+                    sc = draw(st.sampled_from(local_scalars))
+                    nm = 'ccast_' + d0['name'].lower()
+                    if nm not in (set(props_of.get(q0, {})) | set(links_of.get(q0, {}))) and \
+                            not any(mm.get('name') == nm for mm in d0['members']):
+                        expr = draw(st.sampled_from([
+                            f"<array<{sc['name']}>>[]", f"<tuple<{sc['name']}, str>>{{}}",
+                            f"<array<tuple<{sc['name']}, int64>>>[]"]))
+                        d0['members'].append(dict(
+                            kind='property', name=nm, target=None, card='single', required=False,
+                            expr=expr, default=None, constraints=[], annotations=[], linkprops=[]))
+            # (b) a declared-single computed link whose cardinality follows from
+            #     an exclusive constraint (own, object-level or inherited)
+            excl = []
+            for q0, (m0, d0) in sorted(decl_of0.items()):
+                for mm in d0['members']:
+                    if mm['kind'] == 'property' and mm.get('target') == 'str' and \
+                            'exclusive' in mm.get('constraints', []) and mm.get('card') == 'single':
+                        excl.append((q0, mm['name']))
+                    if mm['kind'] == 'constraint' and mm['text'].startswith('exclusive on (.'):
+                        pn = mm['text'][len('exclusive on (.'):-1]
+                        if props_of.get(q0, {}).get(pn) == 'str':
+                            excl.append((q0, pn))
+            # subtypes inherit the constraint
+            for q0 in sorted(decl_of0):
+                for (bq, pn) in list(excl):
+                    if bq in anc_of.get(q0, set()) and (q0, pn) not in excl:
+                        excl.append((q0, pn))
+            for q0, (m0, d0) in sorted(decl_of0.items()):
+                if excl and draw(st.integers(0, 1)) == 0:
+                    tq, pn = draw(st.sampled_from(sorted(excl)))
+                    nm = 'sel_' + d0['name'].lower()
+                    if nm not in (set(props_of.get(q0, {})) | set(links_of.get(q0, {}))) and \
+                            not any(mm.get('name') == nm for mm in d0['members']):
+                        d0['members'].append(dict(
+                            kind='link', name=nm, target=None, card='single', explicit_single=True,
+                            required=False, expr=f"select {tq} filter .{pn} = 'root'",
+                            default=None, constraints=[], annotations=[], linkprops=[]))
         # computed backlinks: on the target type of an existing link
         if rich:
             decl_of = {qname(m, d['name']): d for m, ds in mods.items() for d in ds
